@@ -125,7 +125,7 @@ theorem mirror_exact (c : Cfg) (start end_ batch fetchers submitters : Nat) (des
   generalize prun c (pinit start end_ batch fetchers submitters dest0) ops = s at *
   simp only [passOk, Bool.and_eq_true, Bool.not_eq_true', List.isEmpty_iff] at hok
   obtain ⟨⟨⟨⟨⟨⟨hcl, hwi⟩, hst⟩, hca⟩, hfa⟩, hch⟩, hsi⟩ := hok
-  have hdel := (inv_idle c.env s.f h.fi hwi).2 hcl hst i
+  have hdel := (inv_idle c.env s.f h.fi hwi).2.2 hcl hst i
   have hstage := h.stage i
   have hlost : s.lost = [] := by
     cases hl : s.lost with
@@ -161,15 +161,17 @@ theorem quota_not_retried_fails (c : Cfg) (hr : c.retryQuota = false) (s : PSt) 
   simp only [pstep, hj, hr]
   simp [passOk, giveUp, step]
 
-/- FULL: the code's own policy is the retrying one:
-     theorem code_retries_quota : codeRetriesQuota = true
-   (`codeRetriesQuota` = the regenerated switch asks for a retry on code 8 ∧ the regenerated `errRetry` is a
-   `backoff.RetriableError`). On the unchanged tree `Gen.errRetryIsRetriable = false`: `errRetry = errors.New("retry")`
-   is not recognised by `backoff.Retry` (trillian v1.7.1 retries only gRPC codes and `backoff.RetriableError`), so the
-   quota reply aborts the pass — finding C20-1 (known_findings.d/C20.json, fixes/C20-1.diff, harness scenarios q0/q1). With the fix
-   applied the statement is `by decide`. Proved here: the half that holds on both trees (the switch). -/
-theorem code_retries_quota_partial : codeRetriesQuota = Gen.errRetryIsRetriable := by
-  simp [codeRetriesQuota, switch_asks_retry_only_on_quota.1]
+/-- **The code retries quota replies.** The submitter's policy as regenerated from trillian.go — the `switch` asks for a retry on
+code 8 *and* the error value it returns for that, `errRetry`, is a `backoff.RetriableError`, the only kind of plain error
+`backoff.Retry` retries — is the retrying one; so `quota_retried` applies to the code.
+(Before fix e04c406 `errRetry` was `errors.New("retry")`, `Gen.errRetryIsRetriable` was `false`, this theorem was false and
+`quota_not_retried_fails` described the code: finding C20-1, harness scenarios q0/q1.) -/
+theorem code_retries_quota : codeRetriesQuota = true := by decide
+
+/-- hence, for the code's own configuration, a quota reply is a no-op on the pass -/
+theorem code_quota_noop (src : Nat → Nat) (idf : Nat → Nat → Nat) (s : PSt) (j : Nat) :
+    pstep ⟨src, idf, codeRetriesQuota⟩ s (.quota j) = s :=
+  quota_retried ⟨src, idf, codeRetriesQuota⟩ code_retries_quota s j
 
 /-! ## passes compose: restarts, mastership changes, resumption -/
 
